@@ -358,6 +358,28 @@ pub fn parse_amount(input: &str) -> Result<f64, ParseError> {
 /// assert!(validate_amount_decimals(100.50, "JPY").is_err()); // JPY allows 0 decimals only
 /// assert!(validate_amount_decimals(100.5055, "BHD").is_err()); // BHD allows 3 decimals max
 /// ```
+/// Parse an amount or rate of format `<max_len>d`: a plain decimal of at most `max_len`
+/// characters including the separator (trailing fraction zeros, which the serialisers pad
+/// with, do not count).
+pub fn parse_amount_max_len(input: &str, max_len: usize) -> Result<f64, ParseError> {
+    let amount = parse_amount(input)?;
+    let significant = if input.contains([',', '.']) {
+        input.trim_end_matches('0').trim_end_matches([',', '.'])
+    } else {
+        input
+    };
+    if significant.len() > max_len {
+        return Err(ParseError::InvalidFormat {
+            message: format!(
+                "Amount must be at most {} characters, found {}",
+                max_len,
+                significant.len()
+            ),
+        });
+    }
+    Ok(amount)
+}
+
 pub fn validate_amount_decimals(amount: f64, currency: &str) -> Result<(), ParseError> {
     let max_decimals = get_currency_decimals(currency);
 
